@@ -1477,7 +1477,19 @@ def gen_trace_spec(rng, tier):
             instrs.append([rng.choice(["add", "sub", "mul", "max", "min"]), a, b])
         if avail[-1] != 100 + len(instrs) - 1:
             avail.append(100 + len(instrs) - 1)
-    if rng.random() < 0.85 or not instrs:
+    if rng.random() < 0.15:
+        # bool-valued tail: comparisons, any/all, combined with and_/or_ (0-d results are numpy's singletons)
+        def cmp_red():
+            instrs.append([rng.choice(["gt", "lt", "ge", "le"]), rng.choice(avail), rng.choice(avail)])
+            instrs.append([rng.choice(["any", "all"]), 100 + len(instrs) - 1])
+            return 100 + len(instrs) - 1
+        b1 = cmp_red()
+        if rng.random() < 0.7:
+            b2 = cmp_red()
+            instrs.append([rng.choice(["and_", "or_", "xor"]), b1, b2])
+        avail.append(100 + len(instrs) - 1)
+        ret = avail[-1]
+    elif rng.random() < 0.85 or not instrs:
         ret = avail[-1]
     else:
         ret = rng.choice(avail)
@@ -1566,6 +1578,8 @@ def check_trace(ctx, spec, use_driver=True):
         except Exception as e:
             ctx.count("trace:skip-direct-call-raises:" + type(e).__name__)
             return
+        if any(ins[0] in BOOL_OPS for ins in spec["instrs"]):
+            ctx.count("trace:has-bool-valued-ops")
         if has_kw:
             ctx.count("trace:has-keyword-op-arguments")
         if any(isinstance(v, list) for ins in spec["instrs"] if isinstance(ins[-1], dict) for v in ins[-1].values()):
@@ -1582,10 +1596,13 @@ def check_trace(ctx, spec, use_driver=True):
             declined = "KeyError"
         except NotImplementedError as e:
             # allowed only when the function returns one of its inputs (decline added with 6ee0b90)
-            if spec["ret"] >= 100:
+            has_bool = any(ins[0] in BOOL_OPS for ins in spec["instrs"])
+            if spec["ret"] >= 100 and not has_bool:
                 ctx.fail("input", "C18.trace_function-raises", witness=wit, got=repr(e), expected="a program", python=py)
                 return
-            declined = "returns-input"
+            # allowed declines: the function returns an input (6ee0b90); two traced ops returned the same object,
+            # e.g. numpy's True_/False_ singletons (055de79)
+            declined = "returns-input" if spec["ret"] < 100 else "same-object-results"
         except (ValueError, AssertionError) as e:
             declined = type(e).__name__
         except Exception as e:
@@ -1737,14 +1754,17 @@ if mode.startswith("traced"):
         return res[r - 100] if r >= 100 else vals[r]
     conv = lambda d: {{k: (v if isinstance(v, str) else np.array(v, dtype=np.float64)) for k, v in d.items()}}
     oracle = lambda d: fn(**d)
-    obj = trace_function(fn, conv(steps[0][1]), allow_constants=bool(spec.get("allow")))
+    try:
+        obj = trace_function(fn, conv(steps[0][1]), allow_constants=bool(spec.get("allow")))
+    except (KeyError, NotImplementedError, ValueError) as e:
+        print("trace_function declined:", repr(e)); steps = []; obj = None      # a decline is allowed
 else:
     expr = build(spec)
     kinds = {{nd[1]: nd[2] for nd in spec["nodes"] if nd[0] == "var"}}
     conv = lambda d: {{k: (v if isinstance(v, str) else np.array(v, dtype=(np.int64 if kinds.get(k) == "bint" else np.float64))) for k, v in d.items()}}
     oracle = lambda d: extract(funsor.reinterpret(expr(**d)))
     obj = compile_funsor(expr)
-if mode.endswith("pickle"):
+if mode.endswith("pickle") and obj is not None:
     obj = pickle.loads(pickle.dumps(obj))
 FAILS = False
 with np.errstate(all="ignore"):
@@ -1909,32 +1929,6 @@ def history_trace_case(ctx, tspec, rng):
     ctx.case(sample=None, nontrivial_key=("history-trace", json.dumps([tspec, steps])) if len(tspec["instrs"]) >= 1 else None)
 
 
-def singleton_merge_stream(ctx):
-    """The trace is keyed by id(result): ops returning the np.True_/np.False_ singletons are merged, so
-    and_(any(x), all(y)) traces to the program any(x).  Dedicated stream (clean stream has no bool-valued ops)."""
-    fn = lambda x, y: ops.and_(ops.any(x), ops.all(y))
-    d = dict(x=np.array([True, False]), y=np.array([True, True]))
-    d2 = dict(x=np.array([True, False]), y=np.array([True, False]))
-    try:
-        p = trace_function(fn, d)
-        reproduced = bool(p(**d2)) != bool(fn(**d2))
-    except Exception:
-        reproduced = False
-    fid = "KF-tracer-singleton-results-merged"
-    what = ("trace_function(lambda x,y: and_(any(x), all(y))) yields the program any(x): np.True_ results share one id, "
-            "later entries are dropped by trace.setdefault; returns True where the function returns False")
-    if reproduced:
-        if ctx.is_open(fid):
-            ctx.known(fid, True, what)
-        else:
-            ctx.count("observation:tracer-singleton-results-merged-reproduced(untriaged)")
-            ctx.extra["untriaged_observation"] = what
-    else:
-        ctx.count("tracer-singleton-results-merged:not-reproduced")
-        if ctx.is_open(fid):
-            ctx.known(fid, False)
-
-
 def fixed_trace_specs():
     """op parameters computed from ANOTHER input, keyword / positional / mixed; fresh bindings differ from the trace's."""
     ins = [["x", 3], ["y", 2]]
@@ -1947,6 +1941,26 @@ def fixed_trace_specs():
         mk([["amax", 1], ["clamp", 0, {"max": ["r", 100]}], ["mul", 101, 0]], 102),
         mk([["amin", 1], ["clamp", 0, {"min": ["r", 100], "max": 1.0}], ["sub", 101, 100]], 102),
         mk([["mul", 1, 1], ["amax", 100], ["neg", 101], ["clamp", 0, {"min": ["r", 102], "max": ["r", 101]}]], 103),
+    ] + bool_trace_specs()
+
+
+BOOL_OPS = ("any", "all", "gt", "lt", "ge", "le", "eq", "ne", "and_", "or_", "xor")
+
+
+def bool_trace_specs():
+    """bool-valued reductions / comparisons whose 0-d results are numpy's True_/False_ SINGLETONS: the trace is
+    keyed by object identity, so these must be declined (055de79) or be right on fresh bindings."""
+    ins = [["x", 2], ["y", 2]]
+    data = {"x": [1.0, 0.0], "y": [1.0, 1.0]}
+    fresh = [{"x": [1.0, 0.0], "y": [1.0, 0.0]}, {"x": [0.0, 0.0], "y": [1.0, 1.0]}, {"x": [0.0, 0.0], "y": [0.0, 1.0]}]
+    mk = lambda instrs, ret: {"inputs": ins, "instrs": instrs, "ret": ret, "data": data, "fresh": fresh, "allow": True}
+    return [
+        mk([["any", 0], ["all", 1], ["and_", 100, 101]], 102),
+        mk([["all", 1], ["any", 0], ["or_", 100, 101]], 102),
+        mk([["gt", 0, 1], ["any", 100], ["lt", 0, 1], ["any", 102], ["or_", 101, 103]], 104),
+        mk([["any", 0], ["any", 1], ["xor", 100, 101]], 102),
+        mk([["all", 1]], 100),
+        mk([["ge", 0, 1], ["all", 100]], 101),
     ]
 
 
@@ -2066,7 +2080,6 @@ def correspond(ctx):
         inverse_stream(ctx)
     if not (ctx.failures or ctx.infra_errors):
         param_stream(ctx)
-    singleton_merge_stream(ctx)
     for tspec in fixed_trace_specs():
         if ctx.failures or ctx.infra_errors:
             break
